@@ -51,7 +51,11 @@ type c10Result struct {
 
 func c10Wire(c c10Cmd, dir string, rng *rand.Rand) (wire string, payload string) {
 	file := map[string]string{"existing": filepath.Join(dir, "data.log"), "missing": filepath.Join(dir, "nosuch.log"),
-		"directory": dir, "emptyglob": filepath.Join(dir, "*.nomatch")}[c.File]
+		"directory": dir, "emptyglob": filepath.Join(dir, "*.nomatch"),
+		// spellings: the separators are written by hand, filepath.Join would clean them away
+		"glob": dir + "/sub/*.log", "globdir": dir + "/*/a.log", "dslashglob": dir + "//sub/*.log", "dotglob": dir + "/./sub/*.log",
+		"dotdotglob": dir + "/sub/../sub/*.log", "dslashfile": dir + "//data.log", "trailslash": dir + "/sub/",
+		"dslashglobdir": dir + "//*/a.log", "longmissing": dir + "/" + strings.Repeat("n", 300) + ".log"}[c.File]
 	opts := map[string]string{"none": "", "empty": ":", "valid": ":quiet=true:plain=true", "context": ":before=1:after=1:max=2",
 		"noeq": ":quiet", "nonint": []string{":max=x", ":before=1.5", ":after="}[rng.Intn(3)], "b64good": ":x=base64%Zm9v", "b64bad": ":x=base64%!!!",
 		"negbefore": ":before=-1:max=1", "hugebefore": []string{":before=99999999999:max=1", ":before=4611686018427387904:after=1"}[rng.Intn(2)]}[c.Opts]
@@ -60,7 +64,12 @@ func c10Wire(c c10Cmd, dir string, rng *rand.Rand) (wire string, payload string)
 		"noflag": {"regex:", "line"}, "bogusflag": {"regex:bogus,alsobogus", "line"}, "none": {}}[c.Regex]
 	query := map[string]string{"valid": "select count($line) group by $hostname", "empty": "", "blank": " ", "lonebackquote": "select ` from x",
 		"unknownkeyword": "frobnicate the logs", "truncated": "select count($line) from", "badlogformat": "select count($line) logformat nosuchformat",
-		"unknownagg": "select median($x)"}[c.Query]
+		"unknownagg": "select median($x)",
+		"interval0": "select count($line) group by $hostname interval 0", "intervalneg": "select count($line) group by $hostname interval -5",
+		"intervalhuge": "select count($line) group by $hostname interval 9223372036854775807", "limit0": "select count($line) group by $hostname limit 0",
+		"limitneg": "select count($line) group by $hostname limit -1", "rorderlimit1": "select count($line) group by $hostname rorder by count($line) limit 1",
+		"setclause": "select count($line) group by $hostname set $x = maskdigits($line)",
+		"manyselect": "select count($line),sum($goroutines),min($goroutines),max($goroutines),avg($goroutines),last($hostname),len($line) group by $hostname"}[c.Query]
 	words := []string{}
 	switch c.Word {
 	case "cat", "grep", "tail":
@@ -233,6 +242,11 @@ func TestC10Parent(t *testing.T) {
 		fmt.Fprintf(&sb, "big line %d\n", i)
 	}
 	os.WriteFile(filepath.Join(dir, "big.log"), []byte(sb.String()), 0644)
+	os.MkdirAll(filepath.Join(dir, "sub"), 0755)
+	os.MkdirAll(filepath.Join(dir, "sub2"), 0755)
+	for _, f := range []string{"sub/a.log", "sub/b.log", "sub2/a.log"} {
+		os.WriteFile(filepath.Join(dir, f), []byte("line 1 of "+f+"\nline 2\n"), 0644)
+	}
 	results := make([]c10Result, len(cases))
 	for i := range results {
 		results[i] = c10Result{Index: i, Outcome: "notrun"}
